@@ -463,8 +463,9 @@ theorem message_roundtrip (P : Profile) (hwf : ProfileWF P = true) (arch : Endia
     ∃ (fs : List PField) (parts : List Bytes),
       bs = serialize [.defn (defOf arch m.num fs) false, .data 0 parts []] ∧
       ∀ st : DecSt, ∃ st', stepFields P (defOf arch m.num fs) true (defOf arch m.num fs).fields parts
-        (some ⟨m.num, pm.invalid⟩) st = .ok (some m) st' :=
-  Fit.message_roundtrip P hwf arch m bs pm hpm hkn h hrt hinv
+        (some ⟨m.num, pm.invalid⟩) st = .ok (some m) st' := by
+  obtain ⟨fs, parts, h1, _, _, _, h5⟩ := Fit.message_roundtrip P hwf arch m bs pm hpm hkn h hrt hinv
+  exact ⟨fs, parts, h1, h5⟩
 
 /-- one concrete message through the whole model: `encodeOne`, the 14-byte header and file CRC of
     `frameBytes`, then the byte-level decoder (header, CRCs, definition, data, routing) -/
